@@ -597,6 +597,8 @@ def show_key(k: Any) -> str:
 
 
 def run(repo: Repo, rep: Report) -> None:
+    from ..selftest.guards_check import engine_selfcheck
+    engine_selfcheck(rep)
     check(repo, rep)
     rep.assume("ints passed as indices are Python ints; behaviour for a zero-extent axis combined with an "
                "out-of-range integer on the other axis is not compared (list semantics would not evaluate it)")
